@@ -642,3 +642,11 @@ Theorem data_never_defined wbs rows st' n :
   (forall r, In r rows -> row_data_key r <> Some n) ->
   sget (st_data st') n = None.
 Proof. intros H Hno. rewrite (run_rows_data_frame _ _ _ _ _ H Hno). reflexivity. Qed.
+
+(* [last_word_spec] at string keys, for props/C10.v *)
+Lemma last_word_spec_str (ign : irow -> option str) (V : Type) (def : irow -> option (str * V)) rows n w :
+  last_word str_eqb ign def rows n = Some w <->
+  exists pre r post, rows = pre ++ r :: post /\ last_word str_eqb ign def post n = None /\
+    ((exists m, ign r = Some m /\ str_eqb m n = true /\ w = None) \/
+     (exists k v, ign r = None /\ def r = Some (k, v) /\ str_eqb k n = true /\ w = Some v)).
+Proof. apply (last_word_spec str_eqb). Qed.
